@@ -425,7 +425,7 @@ class Check(PropCheck):
                 attrs += ' class="%s"' % rng.choice(['x', 'x y', 'y'])
             if rng.random() < 0.5:
                 rel = rng.choice('abc')
-                attrs += ' rel="%s" title="%s"' % (rel, rng.choice(['v-' + rel, 'v-' + rel, 'v-a', 'v-b', rel]))
+                attrs += ' rel="%s" title="%s"' % (rel, rng.choice(['v-' + rel, 'v-' + rel, 'v-a', 'v-b', rel, 'a  b', 'a b', 'a\tb']))
             txt = rng.choice(['', 't', ' u ', 'hi'])
             return '<%s%s>%s%s</%s>' % (nm, attrs, txt, ''.join(mk(k) for k in kids[i]), nm)
         return mk(0)
@@ -433,6 +433,13 @@ class Check(PropCheck):
     def rand_pool(self, rng, n):
         pool = []
         seen = set()
+        if rng.random() < 0.6 and n >= 6:
+            # twins that differ only in a white-space *run inside a string literal* (a key that folds white space confuses them)
+            name = rng.choice(['*', 'p', 'span', 'div'])
+            for lit in rng.sample(['a  b', 'a b', 'a\tb'], 2):
+                e = '//%s[@title = "%s"]' % (name, lit)
+                seen.add(e)
+                pool.append(e)
         while len(pool) < n:
             r = rng.random()
             if r < 0.7:
